@@ -424,6 +424,9 @@ func (g G) planFlows(prop string) *Plan {
 		o.faultPcts = []int{0, 0, 10, 25} // a failing key read must never let an unsigned Success assertion out
 	}
 	p := g.planMix(prop, o)
+	if prop == "C04" && g.chance("flows.algbad", 5) {
+		p.World.IDP.SigAlg = g.pick("flows.algbadv", "", "http://www.w3.org/2000/09/xmldsig#dsa-sha1", "rsa-sha256")
+	}
 	if o.wTear > 0 {
 		// a rotation that was caught half-way completes a few steps later: most of the run happens outside that window
 		var out []Step
